@@ -90,7 +90,7 @@ def check_mapping(scn, rec, viol, stats):
         vec = calib.applied_vector(scn, e)
         for i, v in enumerate(vec):
             lo, hi = fb[i][0], fb[i][1]
-            slack = 4 * np.spacing(max(abs(lo), abs(hi)))
+            slack = (32 if fb[i][2] else 4) * np.spacing(max(abs(lo), abs(hi)))  # ten to the power of log10(bound) is the bound only up to the rounding of pow (a dozen ulps for these magnitudes)
             if not (lo - slack <= v <= hi + slack):
                 viol.append({"clause": "C10.bounds", "signature": f"C10.bounds-evaluation@{feat}", "detail": {"component": i, "key": fb[i][3], "applied": v, "box": [lo, hi], "vector": vec}})
                 return
@@ -112,7 +112,7 @@ def check_mapping(scn, rec, viol, stats):
                 return
             for i, v in enumerate(pv):
                 lo, hi = fb[i][0], fb[i][1]
-                slack = 4 * np.spacing(max(abs(lo), abs(hi)))
+                slack = (32 if fb[i][2] else 4) * np.spacing(max(abs(lo), abs(hi)))  # ten to the power of log10(bound) is the bound only up to the rounding of pow (a dozen ulps for these magnitudes)
                 if not (lo - slack <= v <= hi + slack):
                     viol.append({"clause": "C10.bounds", "signature": f"C10.bounds-reported@{name}+{feat}", "detail": {"component": i, "value": float(v), "box": [lo, hi]}})
                     return
